@@ -2,7 +2,7 @@
 import ast
 
 from . import tsrules
-from .common import (Ctx, calls_in, dotted, is_name, nodes_calling, norm, own_calls, params,
+from .common import (Ctx, calls_in, dotted, is_name, kw, nodes_calling, norm, own_calls, params,
                      truth_test)
 
 P = 'C13'
@@ -36,6 +36,7 @@ def run(model, rep, tier):
     tsrules.never_without_buffer(ctx, rep, 'C13.R4')
     r4_who_may_assign(ctx, rep)
     r5_subunit_forces_buffer(ctx, rep)
+    r8_capture_is_complete(ctx, rep)
     rep.rule('C13.R7', 'premise of R1 in post-mortem mode, where the package drives the result itself: '
              'stopTest (which restores the streams) follows every startTest on every exit of the loop')
     tsrules.driver_brackets(ctx, rep, 'C13.R7')
@@ -277,3 +278,47 @@ def r5_subunit_forces_buffer(ctx, rep):
     rep.check(ok, R, 'get_options: options.buffer = True under subunit / subunit_v2',
               'subunit output can be selected without forcing options.buffer on',
               key='get_options:buffer', func=fi.qualname, where=ctx.where(fi, fi.node))
+
+
+def r8_capture_is_complete(ctx, rep, R='C13.R8'):
+    """'shown completely': the capture stream is a text layer (io.TextIOWrapper) over a bytes buffer
+    and getvalue() reads the BYTES buffer; text the wrapper still holds back (no newline yet, with
+    line_buffering or default buffering) is not in it and is thrown away by the truncate that
+    follows.  So the wrapper must pass every write through (write_through=True), or getvalue()
+    must flush first."""
+    rep.rule(R, 'the capture stream hands every write through to the buffer getvalue() reads '
+             '(write_through=True on the text wrapper, or a flush() in getvalue before the read)')
+    m = ctx.model
+    mod = m.func('runner.TestResult._restoreStdStreams').module
+    classes = [n for n in ast.walk(mod.tree) if isinstance(n, ast.ClassDef) and any(
+        isinstance(f, ast.FunctionDef) and f.name == 'getvalue' for f in n.body) and any(
+        (dotted(b) or '').endswith('TextIOWrapper') for b in n.bases)]
+    rep.floor(R, len(classes), 1, 'text-wrapper capture classes with a getvalue()')
+    for cls in classes:
+        gv = [f for f in cls.body if isinstance(f, ast.FunctionDef) and f.name == 'getvalue'][0]
+        reads_bytes = any(isinstance(c, ast.Call) and norm(c.func).endswith('buffer.getvalue')
+                          for c in ast.walk(gv))
+        if not reads_bytes:
+            rep.undecide(R, '%s.getvalue' % cls.name, 'getvalue() does not read self.buffer.getvalue()')
+            continue
+        flushes = [c for c in ast.walk(gv) if isinstance(c, ast.Call) and norm(c.func) == 'self.flush']
+        through = []
+        # constructor calls of the class, and super().__init__ in its own __init__
+        for c in ast.walk(mod.tree):
+            if isinstance(c, ast.Call) and ((isinstance(c.func, ast.Name) and c.func.id == cls.name) or
+                                            (norm(c.func) == 'super().__init__' and any(
+                                                c is x for f in cls.body for x in ast.walk(f)))):
+                k = kw(c, 'write_through')
+                through.append((c, k))
+        has_init = any(isinstance(f, ast.FunctionDef) and f.name == '__init__' for f in cls.body)
+        relevant = [(c, k) for c, k in through if (norm(c.func) == 'super().__init__') == has_init]
+        ok = bool(flushes) or (bool(relevant) and all(
+            k is not None and isinstance(k, ast.Constant) and k.value is True for c, k in relevant))
+        rep.check(ok, R, '%s: writes reach the bytes buffer at once (write_through=True%s)' % (
+            cls.name, ' / flush in getvalue' if flushes else ''),
+            'the capture stream %s is a text wrapper that may hold text back (%s) while getvalue() reads '
+            'the underlying bytes buffer without flushing: what a test wrote after its last newline is '
+            'missing from the failure report and discarded' % (
+                cls.name, [norm(c) for c, k in relevant] or 'no constructor call found'),
+            key='write-through:' + cls.name, func='runner.' + cls.name,
+            where='%s:%s' % (mod.path, cls.lineno))
